@@ -2166,6 +2166,136 @@ def r26_iter_chains(toks, counts):
     return out
 
 
+def r28_closure_signatures(toks, counts, sigs):
+    """the k-th closure of the item gets the signature given by the region option `R28=SIG1,SIG2,..` with SIG = `T1;T2->RET`
+    (`_` keeps the parameter as written): `|t| BODY` -> `|t: T1| -> (cK_r: RET)` + newline + `{ BODY }` (a block body keeps its own
+    braces, its `{` goes on its own line).  Only type annotations are added -- what the compiler infers is written out, and rustc
+    rejects a wrong one -- so that `requires`/`ensures` can be attached to the closure."""
+    out = []
+    i = 0
+    n = len(toks)
+    k = 0
+    STARTERS = ('=', '(', ',', '{', ';')
+    while i < n:
+        t = toks[i]
+        is_start = False
+        if is_p(t, '|'):
+            p = prev_sig(toks, i - 1)
+            if p >= 0 and ((toks[p][0] == 'p' and toks[p][1] in STARTERS and not (toks[p][1] == '=' and p > 0 and is_p(toks[p - 1], '|')))
+                           or is_id(toks[p], 'move') or is_id(toks[p], 'return')):
+                # `||` (no parameters) is tokenised as two `|`
+                is_start = True
+        if not is_start or k >= len(sigs):
+            out.append(t)
+            i += 1
+            continue
+        # parameters up to the closing `|`
+        j = i + 1
+        while j < n and not is_p(toks[j], '|'):
+            if toks[j][0] == 'p' and toks[j][1] in '([':
+                j = match_close(toks, j)
+            j += 1
+        if j >= n:
+            raise ExtractError('R28: unterminated closure parameters')
+        params = toks[i + 1:j]
+        sig = sigs[k]
+        k += 1
+        if '->' not in sig:
+            raise ExtractError('R28: signature %r lacks `->`' % sig)
+        hoist = sig.startswith('let:')
+        if hoist:
+            sig = sig[4:]
+        ptypes, ret = sig.split('->', 1)
+        ptypes = ptypes.split(';') if ptypes else []
+        # split params at depth-0 commas
+        parts = []
+        cur = []
+        q = 0
+        while q < len(params):
+            x = params[q]
+            if x[0] == 'p' and x[1] in '([':
+                c = match_close(params, q)
+                cur += params[q:c + 1]
+                q = c + 1
+                continue
+            if is_p(x, ','):
+                parts.append(cur)
+                cur = []
+            else:
+                cur.append(x)
+            q += 1
+        if [y for y in cur if y[0] not in TRIVIA]:
+            parts.append(cur)
+        if len(parts) != len(ptypes):
+            raise ExtractError('R28: closure %d has %d parameters, signature gives %d' % (k, len(parts), len(ptypes)))
+        new_params = []
+        for part, ty in zip(parts, ptypes):
+            txt = rtok.untok(part).strip()
+            if ty != '_':
+                if ':' in txt.replace('::', ''):
+                    raise ExtractError('R28: parameter %r is already typed' % txt)
+                txt = '%s: %s' % (txt, ty)
+            new_params.append(txt)
+        ind = _line_indent(toks, i)
+        # a closure that already declares its return type keeps it
+        b = next_sig(toks, j + 1)
+        if b + 1 < n and is_p(toks[b], '-') and is_p(toks[b + 1], '>'):
+            raise ExtractError('R28: closure already has a return type')
+        header = '|%s| -> (c%d_r: %s)' % (', '.join(new_params), k, ret)
+        hoist_at = None
+        if hoist:
+            # `let:` -- a closure written inline as a call argument is bound to a name first (closure creation has no effect),
+            # so that the contract can speak about it: `let cK_f = <closure>;` goes before the statement it occurs in
+            q = len(out) - 1
+            depth = 0
+            while q >= 0:
+                x = out[q]
+                if x[0] == 'p' and x[1] in ')]}':
+                    depth += 1
+                elif x[0] == 'p' and x[1] in '([{':
+                    if depth == 0:
+                        if x[1] == '{':
+                            break
+                    else:
+                        depth -= 1
+                elif is_p(x, ';') and depth == 0:
+                    break
+                q -= 1
+            hoist_at = q + 1
+            while hoist_at < len(out) and out[hoist_at][0] == 'ws':
+                hoist_at += 1
+            stmt_ind = _line_indent(out, hoist_at) if hoist_at < len(out) else ind
+            saved_tail = out[hoist_at:]
+            del out[hoist_at:]
+            out += rtok.tokenize('let c%d_f = ' % k)
+            ind = stmt_ind
+        out += rtok.tokenize(header)
+        if is_p(toks[b], '{'):
+            c = match_close(toks, b)
+            out += [('ws', '\n' + ind)]
+            body_end = c
+            out += toks[b:c + 1]
+        else:
+            # expression body: up to the `,` / `;` / closing bracket at depth 0
+            e = b
+            while e < n and not (toks[e][0] == 'p' and toks[e][1] in ',;)]}'):
+                if toks[e][0] == 'p' and toks[e][1] in rtok.OPEN:
+                    e = match_close(toks, e)
+                e += 1
+            body = toks[b:e]
+            while body and body[-1][0] == 'ws':
+                body.pop()
+            out += [('ws', '\n' + ind), ('p', '{'), ('ws', '\n' + ind + '    ')] + _indent_more(body) + [('ws', '\n' + ind), ('p', '}')]
+            body_end = b + len(body) - 1
+        if hoist:
+            out += [('p', ';'), ('ws', '\n' + ind)] + saved_tail + [('id', 'c%d_f' % k)]
+        counts['R28'] = counts.get('R28', 0) + 1
+        i = body_end + 1
+    if k < len(sigs):
+        raise ExtractError('R28: %d closure signatures given, %d closures found' % (len(sigs), k))
+    return out
+
+
 def cleanup_lines(text):
     lines = [l.rstrip() for l in text.split('\n')]
     return [l for l in lines if l.strip() != '']
@@ -2223,6 +2353,8 @@ def extract_region(src_text, path, opts=None):
                 item = r23_split_or_pattern_guard(item, counts)
             if 'R24' in opts.get('rules', ()):
                 item = r24_name_tail_expr(item, counts)
+            if 'R28' in opts.get('rules', ()):
+                item = r28_closure_signatures(item, counts, opts.get('r28_sigs', []))
             item = r21_map_err_anyhow(item, counts)
             if 'R26' not in opts.get('skip', ()):
                 item = r26_iter_chains(item, counts)
